@@ -467,15 +467,20 @@ fn perturbed(s: &Snap, cx: &mut Ctx) {
     }
 }
 
-fn c15_run(cx: &mut Ctx, c: u32, l: u32, h: &[Op], via_esc: bool, t: &[Op]) {
+/// `keep`: the history, the RIS and the continuation all go through ONE `Parser` (character
+/// input), so that anything the recogniser remembers across the reset shows too. Only used when
+/// the history provably ends in the recogniser's ground state; `Parser` has no input-settable
+/// mode (ESC % is inert for it), so a new parser is an exact stand-in on the fresh side.
+fn c15_run(cx: &mut Ctx, c: u32, l: u32, h: &[Op], via_esc: bool, t: &[Op], keep: bool) {
+    let pk = if keep { PK::Chars } else { PK::Bytes };
     let mk = || {
-        let mut case = Case::new("C15", "ris", c, l, PK::Bytes);
+        let mut case = Case::new("C15", "ris", c, l, pk);
         case.setup = h.to_vec();
         case.ops = t.to_vec();
-        case.aux = json!({ "via_esc": via_esc });
+        case.aux = json!({ "via_esc": via_esc, "keep": keep });
         case
     };
-    let mut a = Sys::new(c, l, PK::Bytes);
+    let mut a = Sys::new(c, l, pk);
     a.set_recording(false, false);
     if crate::sys::run_ops(&mut a, h).is_err() {
         cx.stats.count("setup_aborted", 1);
@@ -488,7 +493,11 @@ fn c15_run(cx: &mut Ctx, c: u32, l: u32, h: &[Op], via_esc: bool, t: &[Op]) {
     }
     perturbed(&before, cx);
     // a fresh parser in ground state delivers the RIS (h may have ended inside a sequence)
-    a.attach(PK::Bytes);
+    if !keep {
+        a.attach(PK::Bytes);
+    } else {
+        cx.stats.feature("same-parser-across-RIS");
+    }
     let ris = if via_esc { Op::Feed("\x1bc".into()) } else { Op::Api(Call::Reset) };
     if let Err(p) = a.try_apply(&ris) {
         cx.violation(Viol { prop: "C15".into(), clause: "panic".into(), op: "reset".into(), bucket: panic_sig(&p), detail: format!("RIS panicked: {} at {}", p.msg, p.loc), case: mk() });
@@ -496,7 +505,7 @@ fn c15_run(cx: &mut Ctx, c: u32, l: u32, h: &[Op], via_esc: bool, t: &[Op]) {
     }
     let after = a.snap();
     let depth = after.saved.len();
-    let mut b = Sys::new(after.columns, after.lines, PK::Bytes);
+    let mut b = Sys::new(after.columns, after.lines, pk);
     b.set_recording(false, false);
     let fresh = b.snap();
     // both parsers must have seen the same stream prefix (BOM handling is per stream): the
@@ -571,7 +580,7 @@ impl Check for C15Check {
         "C15"
     }
     fn rule(&self) -> String {
-        "model-free: snapshot(h . RIS) minus the saved-cursor stack must equal snapshot(Screen::new(columns_now, lines_now)) incl. dirty = all rows, the stack itself must be untouched, and for a continuation t without DECRC the snapshots of (h . RIS . t) and (new . t) must be equal after every op of t. h comes from the mixed-history generator (byte input, API calls, resizes, DECCOLM) so that every Screen component is perturbed before RIS (per-component counts in state_features); RIS via `ESC c` and via reset(). distinct = (RIS path, geometry, saved depth); non-trivial = the state before RIS differed from a fresh screen".into()
+        "model-free: snapshot(h . RIS) minus the saved-cursor stack must equal snapshot(Screen::new(columns_now, lines_now)) incl. dirty = all rows, the stack itself must be untouched, and for a continuation t without DECRC the snapshots of (h . RIS . t) and (new . t) must be equal after every op of t. h comes from the mixed-history generator (byte input, API calls, resizes, DECCOLM) so that every Screen component is perturbed before RIS (per-component counts in state_features); RIS via `ESC c` and via reset(); in a third of the cases history, RIS and continuation go through one and the same Parser (character input, history ending in the ground state) so that recogniser-side leftovers show as well. distinct = (RIS path, geometry, saved depth); non-trivial = the state before RIS differed from a fresh screen".into()
     }
     fn assumptions(&self) -> Vec<String> {
         assumptions()
@@ -591,6 +600,7 @@ impl Check for C15Check {
             "perturbed-hidden",
             "perturbed-saved-columns",
             "nonempty-saved-stack",
+            "same-parser-across-RIS",
         ]
     }
     fn shard(&self, cx: &mut Ctx) {
@@ -627,10 +637,26 @@ impl Check for C15Check {
                 let at = rng.usize(t.len().min(3) + 1);
                 t.insert(at, Op::Feed(if rng.below(3) == 0 { "\x1b[?3h".into() } else { "\x1b[?3l".into() }));
             }
-            c15_run(cx, c, l, &h, via_esc, &t);
+            // every third case: one Parser for history, RIS and continuation (character input only)
+            let mut keep = false;
+            if rng.below(3) == 0 {
+                let hk: Vec<Op> = h.iter().filter(|o| !matches!(o, Op::FeedBytes(_) | Op::Charset(_))).cloned().collect();
+                let mut rp = crate::refparser::RefParser::new(true);
+                for o in &hk {
+                    if let Op::Feed(s) = o {
+                        rp.feed(s);
+                    }
+                }
+                if rp.is_ground() {
+                    h = hk;
+                    t.retain(|o| !matches!(o, Op::FeedBytes(_) | Op::Charset(_)));
+                    keep = true;
+                }
+            }
+            c15_run(cx, c, l, &h, via_esc, &t, keep);
         }
     }
     fn replay(&self, case: &Case, cx: &mut Ctx) {
-        c15_run(cx, case.columns, case.lines, &case.setup, case.aux["via_esc"].as_bool().unwrap_or(true), &case.ops);
+        c15_run(cx, case.columns, case.lines, &case.setup, case.aux["via_esc"].as_bool().unwrap_or(true), &case.ops, case.aux["keep"].as_bool().unwrap_or(false));
     }
 }
